@@ -1080,8 +1080,8 @@ fn run_faulted(cx: &mut Ctx, sc: &Scenario, base: &Base, seed: u64, g: u64) -> u
     }
     // determinism: identical to the profile up to the first interfered event
     if sc.nonutf8.is_none() && sc.read_cap == 0 {
-        let a: Vec<String> = profile.iter().map(event_line).collect();
-        let b: Vec<String> = run.state.trace.iter().map(event_line).collect();
+        let a: Vec<String> = canon_event_lines(profile);
+        let b: Vec<String> = canon_event_lines(&run.state.trace);
         let first = run.state.trace.iter().position(|e| e.rule != -1).unwrap_or(b.len());
         let n = first.min(a.len()).min(b.len());
         if a[..n] != b[..n] {
